@@ -929,12 +929,25 @@ pub fn gen_group_case(bytes: &[u8], gp: &GroupProfile) -> GroupCase {
             // a burst of inserts of short-lived members: many members ending in
             // one poll, tables growing across their inline capacities (10, 23)
             // and bitset blocks (64)
-            let n = c.weighted(&[(3usize, 20), (6, 20), (11, 25), (12, 15), (24, 14), (70, 6)]);
+            let mut n = c.weighted(&[(3usize, 20), (6, 20), (11, 25), (12, 15), (24, 14), (70, 6), (1100, 1)]);
+            // a group of more than a thousand members is expensive to model:
+            // rare in the quick tier
+            if n == 1100 && gp.max_ops <= 40 && !c.coin(30) {
+                n = 70;
+            }
+            // half of the bursts use one script for all their members (e.g. a
+            // thousand members that all stay pending)
+            let template: Option<u8> = if c.coin(128) { Some(c.weighted(&[(0u8, 20), (1, 50), (2, 15), (3, 15)])) } else { None };
             for _ in 0..n {
-                let script = match c.weighted(&[(0u8, 50), (1, 30), (2, 20)]) {
+                let k = match template {
+                    Some(t) => t,
+                    None => c.weighted(&[(0u8, 50), (1, 30), (2, 20)]),
+                };
+                let script = match k {
                     0 => vec![],
                     1 => vec![crate::world::Step::Later],
-                    _ => vec![crate::world::Step::Yield(true)],
+                    2 => vec![crate::world::Step::Yield(true)],
+                    _ => vec![crate::world::Step::Never],
                 };
                 ops.push(GOp::Insert(ChildSpec::Leaf(crate::spec::LeafSpec { script, always: false, hint: false })));
             }
